@@ -145,6 +145,8 @@ pub fn arb_atom_name(heavy: bool) -> BoxedStrategy<String> {
         2 => vec(prop_oneof![Just('é'), Just('ß'), Just('λ'), Just('Ж'), Just('中'), Just('日'), Just('🎉'), Just('a'), Just('_')], 1..10)
             .prop_map(|v| v.into_iter().collect::<String>()),
         1 => Just(String::new()),
+        // pairs of names of which one, written in Latin-1, has exactly the bytes of the other written in UTF-8
+        2 => select(vec!["Ã©", "é", "Â\u{a0}", "\u{a0}", "Ã¼", "ü", "Ã\u{9f}", "ß", "Ã©Ã©", "éé", "aÃ©", "aé"]).prop_map(|s| s.to_string()),
         // 20..80 bytes of characters of mixed width: byte offsets such as 32 or 64 fall inside a character
         2 => vec(prop_oneof![Just('a'), Just('é'), Just('ж'), Just('中'), Just('🎉'), Just('z')], 12..40).prop_map(|v| v.into_iter().collect::<String>()),
     ];
